@@ -579,6 +579,9 @@ class Packetizer:
 
         if self.__compress_engine_in is not None:
             payload = self.__compress_engine_in(payload)
+        if len(payload) == 0:
+            # not even a message type byte
+            raise SSHException("Invalid packet: empty payload")
 
         msg = Message(payload[1:])
         msg.seqno = self.__sequence_number_in
